@@ -105,10 +105,41 @@ def run(tier, seed):
         s = authcat.Scn(kind)
         s.cd_extra = {"crossOrigin": False, "pad": "x" * 20}
         pol, a = s.build()
-        for mode in ("reassign", "writable-buffer"):
+        for mode in ("reassign", "writable-buffer", "mapped-buffer"):
             bufs = {p: bytearray(getattr(a, p)) for p in ("cdj", "ad", "sig")}
             if mode == "reassign":
                 rec = a.as_record()
+            elif mode == "mapped-buffer":
+                # read-only views of one shared mapping (mmap / shared memory): the exporter is hashable, the views are read-only, the content still changes under them
+                import mmap
+                from webauthn.helpers.structs import AuthenticationCredential, AuthenticatorAssertionResponse
+                mm = mmap.mmap(-1, 8192)
+                spans, off = {}, 16
+                for p_ in ("cdj", "ad", "sig"):
+                    mm[off:off + len(bufs[p_])] = bytes(bufs[p_])
+                    spans[p_] = (off, off + len(bufs[p_]))
+                    off += len(bufs[p_]) + 7
+                whole = memoryview(mm).toreadonly()
+                views = {p_: whole[spans[p_][0]:spans[p_][1]] for p_ in spans}
+                for v_ in views.values():
+                    try:
+                        hash(v_)
+                    except Exception:
+                        pass
+                rec = AuthenticationCredential(id=a.id_text, raw_id=a.cred_id, response=AuthenticatorAssertionResponse(
+                    client_data_json=views["cdj"], authenticator_data=views["ad"], signature=views["sig"]))
+
+                class _Mapped:
+                    def __init__(self, p_):
+                        self.p = p_
+
+                    def __getitem__(self, i):
+                        return mm[spans[self.p][0] + i]
+
+                    def __setitem__(self, i, v):
+                        mm[spans[self.p][0] + i] = v
+                orig_bufs = {p_: bytes(bufs[p_]) for p_ in bufs}
+                bufs = {p_: _Mapped(p_) for p_ in spans}
             else:
                 from webauthn.helpers.structs import AuthenticationCredential, AuthenticatorAssertionResponse
                 rec = AuthenticationCredential(id=a.id_text, raw_id=a.cred_id, response=AuthenticatorAssertionResponse(
@@ -120,8 +151,8 @@ def run(tier, seed):
                 continue
             fields = {"cdj": "client_data_json", "ad": "authenticator_data", "sig": "signature"}
             for part, attr in fields.items():
-                orig = bytes(bufs[part])
-                for i in range(0, len(orig) * 8, 5 if quick else 1):
+                orig = bytes(bufs[part]) if mode != "mapped-buffer" else orig_bufs[part]
+                for i in range(0, len(orig) * 8, (5 if quick else 1) * (3 if mode == "mapped-buffer" else 1)):
                     if mode == "reassign":
                         setattr(rec.response, attr, bytes(orig[: i // 8]) + bytes([orig[i // 8] ^ (1 << (i % 8))]) + orig[i // 8 + 1:])
                     else:
@@ -199,6 +230,14 @@ def run(tier, seed):
     # the values that bind the statement to the presented data may not be shortened or emptied either (each genuinely signed / certified)
     from harness import regcat
     # ... nor may the signature cover another arrangement of the same data (part of the authenticator data, the two halves swapped, a hash of the base)
+    # ... nor may the client data be hashed with another digest than SHA-256, whatever they announce about themselves ("null": not hashed at all - then NO bit of them would count)
+    reps = 0
+    while authcat.variants_left("client-data-announce-another-digest-and-are-hashed-with-it", scope="c06:") and reps < 40:
+        reps += 1
+        s = authcat.Scn(("ES256-P256", "RS256", "EdDSA")[reps % 3])
+        authcat.apply(authcat.FAULTS, "client-data-announce-another-digest-and-are-hashed-with-it", s, scope="c06:")
+        pol, a = s.build()
+        A.run_case(pol, a, ("record", "dict", "text")[reps % 3], "reject", f"client-data-digest/{s.sign_over[1]}/{list(s.cd_extra)[-1]}={list(s.cd_extra.values())[-1]}")
     while authcat.variants_left("signed-over-another-arrangement-of-the-same-data", scope="c06:"):
         for kind in ("ES256-P256", "RS256", "EdDSA"):
             s = authcat.Scn(kind)
